@@ -754,6 +754,31 @@ def rule_r4(chk, prog):
     chk.rule('C12.R4', 'fresh identities: _id=/_hash=/_data= only in the '
              'unpickler; ids drawn from the process-shared counter under its '
              'lock')
+    # ... and never 0: the constructor, the unpickler and substitute test an
+    # id for truth ("if _id", "if expr.id"), so the counter starts at a
+    # value >= 0 and is incremented before it is read
+    nm_ = prog.mod('nodes')
+    for st_ in nm_.cls('Node').body:
+        if isinstance(st_, ast.Assign) and isinstance(
+                st_.value, ast.Call) and (call_name(st_.value) or ''
+                                          ).endswith('Value') and len(
+                                              st_.value.args) >= 2:
+            init_ = st_.value.args[1]
+            v_ = None
+            if is_const(init_) and isinstance(init_.value, int):
+                v_ = init_.value
+            elif isinstance(init_, ast.UnaryOp) and isinstance(
+                    init_.op, ast.USub) and is_const(init_.operand):
+                v_ = -init_.operand.value
+            chk.check('C12.R4', 'nodes.Node', st_, v_ is not None
+                      and v_ >= 0,
+                      f'the id counter starts at {unparse(init_)}: the '
+                      'first node of a process (the first token of the '
+                      'parsed input) gets id 0, which the unpickler and '
+                      'substitute take for "no id" - a simplification keyed '
+                      'on it is ignored and the node changes its identity '
+                      'on every trip to a worker', loc=nm_.loc(st_),
+                      nontrivial=True)
     cnt = 0
     for om in list(prog.modules.values()):
         for c in ast.walk(om.tree):
